@@ -7,6 +7,14 @@ PKGS = {
 }
 
 PROPS = {
+    "C07": {
+        "harnesses": [
+            {"pkg": "interpreter", "name": "VH_C07_Step", "quick": {"params": {"D": 3, "K": 2, "A": 1, "C": 0, "TX": 0, "U": 6}}, "thorough": {"params": {"D": 6, "K": 3, "A": 1, "C": 0, "TX": 0, "U": 8}}},
+            {"pkg": "interpreter", "name": "VH_C07_Execute"},
+            {"pkg": "interpreter", "name": "VH_C07_ExecuteScripts", "quick": {"params": {"L": 1, "LU": 0}}, "thorough": {"params": {"L": 2, "LU": 0}}},
+        ],
+        "assumptions": [],
+    },
     "C02": {
         "harnesses": [
             {"pkg": "bt", "name": "VH_C02_Preimage", "quick": {"params": {"IN": 2, "OUT": 2, "S": 1}}, "thorough": {"params": {"IN": 3, "OUT": 3, "S": 2}}},
